@@ -1,6 +1,7 @@
 package main
 
 import (
+	"strings"
 	"flag"
 	"fmt"
 	"os"
@@ -37,6 +38,7 @@ func cmdVerify(args []string) {
 	out := fs.String("out", "/verif/out/adhoc", "output dir")
 	houd := fs.Bool("houdini", true, "infer loop invariants")
 	verbose := fs.Bool("v", false, "verbose")
+	model := fs.String("model", "", "print a model for the failing obligation whose name contains this string")
 	pkgs := fs.String("pkgs", "./...", "package patterns")
 	fs.Parse(args)
 	P, err := loadProg(*repo, []string{*pkgs}, []string{"/verif/specs"})
@@ -67,6 +69,13 @@ func cmdVerify(args []string) {
 		for _, o := range res.Obls {
 			if o.Res.Status != "unsat" || *verbose {
 				fmt.Printf("    %-8s %s  @%s (%s %.2fs)\n", o.Res.Status, o.Name, o.Pos, o.Res.Solver, o.Res.Time)
+			}
+		}
+		if *model != "" {
+			for _, o := range res.Obls {
+				if o.Res.Status != "unsat" && strings.Contains(o.Name, *model) {
+					dumpModel(o, *out)
+				}
 			}
 		}
 		if *verbose {
@@ -100,5 +109,41 @@ func init() {
 			sort.Strings(ks)
 			fmt.Println(funcKey(fn), ks)
 		}
+	}
+}
+
+
+// dumpModel prints the values of all scalar constants in a model of the
+// negated obligation (debugging aid).
+func dumpModel(o *Obligation, dir string) {
+	var terms []string
+	for name, sort := range o.vc.declared {
+		if sort == SInt || sort == SBool {
+			// only constants (functions are in declared too, with their result sort; skip known ones)
+			if strings.HasPrefix(name, "slen") || strings.HasPrefix(name, "sat") || strings.HasPrefix(name, "errIs") || strings.HasPrefix(name, "impl$") || strings.HasPrefix(name, "uf_") || strings.HasPrefix(name, "ufb_") {
+				continue
+			}
+			isFun := false
+			for _, d := range o.vc.decls {
+				if strings.HasPrefix(d, "(declare-fun "+name+" (") && !strings.HasPrefix(d, "(declare-fun "+name+" ()") {
+					isFun = true
+				}
+			}
+			if !isFun {
+				terms = append(terms, name)
+			}
+		}
+	}
+	sort.Strings(terms)
+	script := o.vc.query(o.Mark, nil, o.Goal, true)
+	m, _ := getModel(script, dir, o.Name, terms, 20)
+	fmt.Println("    model for", o.Name)
+	var keys []string
+	for k := range m {
+		keys = append(keys, k)
+	}
+	sort.Strings(keys)
+	for _, k := range keys {
+		fmt.Printf("      %s = %s\n", k, m[k])
 	}
 }
